@@ -77,6 +77,12 @@ func runFaulted(c *core.Case, eng Engine, st *memstore.Store, faults []core.Faul
 	parent := context.Background()
 	var ctx context.Context
 	var cancel context.CancelFunc
+	for _, f := range faults {
+		if f.Kind == "blockdl" && deadlineUs == 0 {
+			// the callback blocks until the context's deadline passes
+			deadlineUs = 10000
+		}
+	}
 	if deadlineUs > 0 {
 		ctx, cancel = context.WithTimeout(parent, time.Duration(deadlineUs)*time.Microsecond)
 	} else {
@@ -270,7 +276,11 @@ func sweep(c *core.Case, kinds []string, classes []string, judge func(kind strin
 			if class != "any" {
 				n = counts[class]
 			}
-			for _, k := range kList(n, sweepCap(c)/len(cls)+1, uint64(c.Hash())) {
+			kcap := sweepCap(c)/len(cls) + 1
+			if kind == "blockdl" {
+				kcap = kcap / 4 // every position waits for the deadline
+			}
+			for _, k := range kList(n, kcap, uint64(c.Hash())) {
 				fs := []core.Fault{{Kind: kind, Class: class, K: k}}
 				if c.Fault != nil && c.Fault.Kind == "pair" {
 					// a second fault of the same kind later on (different shard / selector)
@@ -411,7 +421,7 @@ func init() {
 	// C14: cancellation is prompt and final; no hangs, no leaks.
 	register("C14", func(c *core.Case) core.Verdict {
 		tol := tolOf(c)
-		kinds := []string{"cancel", "block", "cancelquery"}
+		kinds := []string{"cancel", "block", "cancelquery", "blockdl"}
 		v := sweep(c, kinds, nil, func(kind string, f []core.Fault, base, o faultOutcome) string {
 			if o.res.Err != nil && strings.HasPrefix(o.res.Err.Error(), "PANIC-ESCAPED") {
 				return "panic escaped from Exec: " + o.res.Err.Error()
@@ -433,7 +443,7 @@ func init() {
 				if o.fired && !(errors.Is(o.res.Err, context.Canceled) || errors.Is(o.res.Err, context.DeadlineExceeded) || strings.Contains(o.res.Err.Error(), "context canceled")) {
 					return fmt.Sprintf("after cancellation Exec returned an error that is not the context's error: %v", o.res.Err)
 				}
-				if !o.fired {
+				if !o.fired && !(kind == "blockdl" && errors.Is(o.res.Err, context.DeadlineExceeded)) {
 					return fmt.Sprintf("no cancellation happened, but Exec failed: %v", o.res.Err)
 				}
 				return ""
